@@ -306,6 +306,25 @@ def eval_object_routes(case):
                         'Bycycle(thresholds=%r).fit: labels are not the rule for these thresholds (missing ones at their defaults)' % (t,),
                         expected=exp, observed={'got': got, 'word': w}, evals=nev)
         nt = nt or any(got)
+    # one object, the SAME array fitted again after each in-place edit of its thresholds (raise, then lower again): the labels follow
+    # the thresholds in force at the time of the fit, and raising one only removes labels
+    arr = np.array(sig)
+    bm = Bycycle(center_extrema=centre, thresholds=dict(full[0]))
+    bm.fit(arr, 64, (6, 14))
+    prev = [bool(x) for x in bm.df_features['is_burst']]
+    for key, val in (('monotonicity_threshold', .8), ('amp_fraction_threshold', .5), ('min_n_cycles', 4), ('monotonicity_threshold', .2),
+                     ('period_consistency_threshold', .9), ('amp_fraction_threshold', 0.), ('min_n_cycles', 1)):
+        raised = val > bm.thresholds[key]
+        bm.thresholds[key] = val
+        bm.fit(arr, 64, (6, 14))
+        nev += 1
+        exp = ref_labels_from_table(bm.df_features, 'cycles', dict(bm.thresholds))
+        got = [bool(x) for x in bm.df_features['is_burst']]
+        if got != exp or (raised and any(g and not q for g, q in zip(got, prev))):
+            return VIOL({'kind': 'object-refit-after-edit', 'centre': centre, 'key': key},
+                        'Bycycle.fit of the same array after thresholds[%r] = %r was set in place: labels are not the rule for the thresholds in force' % (key, val),
+                        expected=exp, observed={'got': got, 'before_edit': prev, 'word': w, 'thresholds': dict(bm.thresholds)}, evals=nev)
+        prev = got
     # per-signal threshold lists, non-square 3-D array, the same recording in every slot (scaled)
     sigs = np.array([[sig * (1 + i * 3 + j) for j in range(3)] for i in range(2)])
     kws = [[{'center_extrema': centre, 'threshold_kwargs': dict(full[(i * 3 + j) % 4])} for j in range(3)] for i in range(2)]
